@@ -123,7 +123,7 @@ def build(only_proofs_ok=False):
         rc, o, e = sh(["make", "-j%d" % NCPU, "-k"], cwd=COQ, timeout=3000)
         notes["t_coq"] = round(time.time() - t1, 1)
         notes["coq_ok"] = (rc == 0)
-        notes["coq_log"] = (o + e)[-6000:] if rc != 0 else ""
+        notes["coq_log"] = ("\n".join(l for l in (o + e).splitlines() if not l.startswith(("COQC", "COQDEP", "CLEAN")))[:6000]) if rc != 0 else ""
         # 3. extraction + OCaml model (needs only the model .vo files)
         t2 = time.time()
         ex = os.path.join(BUILD, "extract")
@@ -194,7 +194,38 @@ def check_proofs(prop):
     if bad:
         failures.append("Admitted/admit in Props/%s.v" % prop)
         discharged = []
+    # hygiene over the whole development: nothing admitted, no axioms declared, no checks off
+    pat = re.compile(r"(?m)^\s*(Admitted\.|admit\.|Axiom\s|Axioms\s|Parameter\s|Parameters\s|Conjecture\s|Admit Obligations|"
+                     r"Unset Guard Checking|Unset Positivity Checking|Unset Universe Checking)|bypass_check|-type-in-type|give_up")
+    for d, _, files in os.walk(COQ):
+        for fn in files:
+            if fn.endswith(".v"):
+                src_text = open(os.path.join(d, fn), errors="replace").read()
+                src_nc = re.sub(r"\(\*.*?\*\)", "", src_text, flags=re.S)
+                m = pat.search(src_nc)
+                if m:
+                    failures.append("forbidden construct %r in %s" % (m.group(0).strip(), os.path.relpath(os.path.join(d, fn), COQ)))
+                    discharged = []
     return theorems, discharged, (o + e).strip(), failures
+
+
+def run_coqchk(prop):
+    """Thorough tier: re-check the compiled property module and everything it depends on with
+    the independent checker; cached by the hash of the .vo files."""
+    import glob
+    h = hashlib.sha256()
+    for f in sorted(glob.glob(os.path.join(COQ, "**", "*.vo"), recursive=True)):
+        h.update(f.encode())
+        h.update(open(f, "rb").read())
+    key = h.hexdigest()[:16]
+    cache = os.path.join(BUILD, "coqchk-%s-%s.txt" % (prop, key))
+    if os.path.exists(cache):
+        return open(cache).read(), True
+    rc, o, e = sh(["coqchk", "-silent", "-o", "-Q", COQ, "KV", "KV.Props." + prop], cwd=COQ, timeout=5400)
+    text = "rc=%d\n%s%s" % (rc, o[-3000:], e[-1500:])
+    if rc == 0:
+        open(cache, "w").write(text)
+    return text, rc == 0
 
 
 def split_cases(path, nshards, outdir, tag):
@@ -459,6 +490,14 @@ def main():
         # make run; a failure there that touches this property shows up as a Props failure
         for f in pfail:
             broken.append("proof obligation: " + f)
+        if pfail and notes.get("coq_log"):
+            # the first error of the full build usually names the lemma that no longer holds
+            broken.append("make -C coq (first failure): " + notes["coq_log"][:2500])
+        if tier == "thorough" and not replay and os.environ.get("VERIF_NO_COQCHK") is None:
+            chk, okc = run_coqchk(prop)
+            ev_cov["coqchk"] = chk[-2500:]
+            if not okc:
+                broken.append("coqchk failed for KV.Props.%s: %s" % (prop, chk[-800:]))
         # ---- stage 2+3: corpus, generated cases
         casefiles = []
         if replay:
